@@ -24,9 +24,9 @@ type vhCancelCtx struct {
 	live    []bool
 }
 
-func (c *vhCancelCtx) Deadline() (time.Time, bool)  { return time.Time{}, false }
-func (c *vhCancelCtx) Value(key any) any            { return nil }
-func (c *vhCancelCtx) Err() error                   { return c.err }
+func (c *vhCancelCtx) Deadline() (time.Time, bool) { return time.Time{}, false }
+func (c *vhCancelCtx) Value(key any) any           { return nil }
+func (c *vhCancelCtx) Err() error                  { return c.err }
 func (c *vhCancelCtx) Done() <-chan struct{} {
 	if !c.hasDone {
 		return nil
@@ -65,13 +65,14 @@ var vhErrIO = errors.New("connection reset by peer")
 // the cancellation while the call is in progress.
 type vhBlockingConn struct {
 	vhConn
-	ctx       *vhCancelCtx
-	stall     bool
-	fireInIO  bool
-	ioFails   bool
-	hung      bool
-	calls     int
-	payload   []byte
+	halfClosed bool
+	ctx        *vhCancelCtx
+	stall      bool
+	fireInIO   bool
+	ioFails    bool
+	hung       bool
+	calls      int
+	payload    []byte
 }
 
 func (c *vhBlockingConn) Read(p []byte) (int, error) {
@@ -198,10 +199,11 @@ func VH_C19_Write() {
 // call is blocked, and the call returns only if that closed the connection.
 type vhStallConn struct {
 	vhConn
-	ctx     *vhCancelCtx
-	stallAt int
-	calls   int
-	hung    bool
+	halfClosed bool
+	ctx        *vhCancelCtx
+	stallAt    int
+	calls      int
+	hung       bool
 }
 
 func (c *vhStallConn) block() {
@@ -231,6 +233,12 @@ func (c *vhStallConn) Read(p []byte) (int, error) {
 	}
 	return c.vhConn.Read(p)
 }
+
+// CloseWrite: like a TCP or Unix socket, the harness connections can shut down their
+// sending half only. That does not close the connection (reads still work): code
+// that answers a cancellation with a half-close has left the connection half-used.
+func (c *vhStallConn) CloseWrite() error    { c.halfClosed = true; return nil }
+func (c *vhBlockingConn) CloseWrite() error { c.halfClosed = true; return nil }
 
 func (c *vhStallConn) Write(p []byte) (int, error) {
 	c.calls++
@@ -268,7 +276,7 @@ func VH_C19_FrameOps() {
 		vAssume(false)
 	}
 	w := pc.outs[0]
-	conn.feed(w[:5], w[5:]) // header and body arrive separately
+	conn.feed(w[:5], w[5:])              // header and body arrive separately
 	conn.stallAt = vChoice("stallAt", 4) // 0: never
 	op := vChoice("op", 3)
 	var err error
